@@ -22,6 +22,8 @@ type (
 	BoolV bool
 	StrV  string
 	NilV  struct{}
+	// SomeV wraps nil (or another SomeV) only: some(nil) of a nested optional type.
+	SomeV struct{ V Value }
 	VoidV struct{}
 	ArrV  struct {
 		T     *Type // static type the array was created with (may be nil)
@@ -103,6 +105,10 @@ func canon(sb *strings.Builder, v Value) {
 		sb.WriteString(strconv.Quote(string(x)))
 	case NilV, nil:
 		sb.WriteString("nil")
+	case SomeV:
+		sb.WriteString("some(")
+		canon(sb, x.V)
+		sb.WriteByte(')')
 	case VoidV:
 		sb.WriteString("()")
 	case *ArrV:
